@@ -84,10 +84,9 @@ def find_additional_properties(instance, schema):
 
     properties = schema.get("properties", {})
     patterns = schema.get("patternProperties", {})
-    joined = "|".join(patterns)
     for property in instance:
         if property not in properties:
-            if patterns and re.search(joined, property):
+            if any(re.search(pattern, property) for pattern in patterns):
                 continue
             yield property
 
